@@ -332,11 +332,17 @@ CONFIG = {
                       "hand-written models tied by (a) a statement-level pin of the 15 Go functions regenerated on every run (extract/cmd/skeleton with "
                       "loop headers vs Proofs/SkelScalarMult, rfl), (b) execution: c14.dg runs the literal recoding model (scdriver) and the number-level "
                       "one (driver) against the Go recodings, c14.sm the multiplications against the RFC 8032 reference and math/big. "
-                      "PARTIAL: that the Go loops, which move between P1xP1/P2/P3/cached coordinates, refine the group-level loops step by step is not "
-                      "proved (each formula is proved on its own; the composition is pinned and executed), nor is SetBytesWithClamping. "
+                      "The coordinate-changing Go loops themselves are covered as well: Model/ScalarMultLit.lean transcribes scalarmult.go and tables.go "
+                      "statement by statement over the TRANSLATED point formulas (executed by scdriver on every c14.sm operation), Proofs/EdRepr proves "
+                      "every translated formula correct w.r.t. the group element its coordinates stand for (P3, P1xP1, P2, cached, affine-cached), and "
+                      "Proofs/ScalarMultRefine, ScalarBaseMultRefine, DoubleScalarMultRefine prove that for every scalar and every valid point "
+                      "ScalarMult, ScalarBaseMult (with the translated basepointTable; the generator is decoded by the kernel) and "
+                      "VarTimeDoubleScalarBaseMult return valid points standing for x•g, x•B and a•gA+b•B in the curve group, with no table lookup "
+                      "out of range. PARTIAL: the transcription of scalarmult.go/tables.go is by hand (pinned and executed, not translated); "
+                      "SetBytesWithClamping and ModInverse (math/big) are not modelled. "
                       "Public keys must be 32 bytes (documented precondition).",
         "trusted_base": COMMON_TB + ["crypto/ed25519 as the reference", "PatVerif/Exec/Ed25519 (validated differentially)"],
-        "assumptions": ["the coordinate-changing loops of scalarmult.go refine the group-level loops of Model/ScalarMultAlg.lean (pinned textually, executed; not proved)",
+        "assumptions": ["Model/ScalarMultLit.lean and Model/Recode.lean transcribe scalarmult.go, tables.go and the two recodings faithfully (pinned statement by statement on every run, executed against the Go code; hand-written)",
                         "Model/GoInt.lean reads Go's int64 +, -, *, <<, >>, & (2^j-1), | and byte() correctly where the generated side conditions hold",
                         "Model/GoU64.lean reads Go's uint64 operators, bits.Mul64/Add64 and binary.LittleEndian correctly; felimbs' functional reading "
                         "of pointer code is right where its alias check passes"],
@@ -363,8 +369,9 @@ CONFIG = {
                       "under the translated Point.Add, associativity included: Proofs/EdAssoc, EdGroup). ScalarMult — the operation blinding and unblinding "
                       "perform on the key — is signedRadix16 (literal model, proved: Proofs/Recode) followed by the table-driven loop (abstract-group model, "
                       "proved to compute x•Q in every commutative group: Proofs/ScalarMultAlg, Props/C14Mult); both models are pinned statement by statement "
-                      "to scalar.go/scalarmult.go/tables.go on every run and executed against the Go code (c14.dg, c14.sm). Not proved: the step-by-step "
-                      "refinement of the coordinate-changing Go loop to the group-level loop, and ModInverse (math/big).",
+                      "to scalar.go/scalarmult.go/tables.go on every run and executed against the Go code (c14.dg, c14.sm); the coordinate-changing Go loop itself, "
+                      "transcribed over the translated formulas (Model/ScalarMultLit.lean), is proved to return a valid point standing for x•g in the curve "
+                      "group for every scalar and valid point (Proofs/EdRepr, ScalarMultRefine.scalarMult_correct). Not modelled: ModInverse (math/big).",
         "trusted_base": COMMON_TB + ["Mathlib", "PatVerif/Exec/Ed25519"],
         "assumptions": ["A lies in the prime-order subgroup for unblind_blind",
                         "Model/GoInt.lean reads Go's int64 operators correctly where the generated side conditions hold"],
